@@ -165,3 +165,36 @@ Section MergeProofs.
     intros c Hc. apply Hs. exact (Permutation_in _ (Permutation_sym (sort_perm score geb cs)) Hc).
   Qed.
 End MergeProofs.
+
+(* every single merge strictly improves the reference's combined score (trace level) *)
+Section MergeTrace.
+  Variable score : Type.
+  Variable geb : score -> score -> bool.
+  Hypothesis geb_refl : forall a, geb a a = true.
+  Hypothesis geb_trans : forall a b c, geb a b = true -> geb b c = true -> geb a c = true.
+  Variable score_eqb : score -> score -> bool.
+  Variable beats : score -> bool.
+  Hypothesis beats_up : forall a b, geb a b = true -> beats b = true -> beats a = true.
+  Variable score_union : Z -> list Z -> score.
+
+  Theorem merge_strictly_improves pre c (st : mstate score) :
+    MInv score geb beats score_union pre st -> seed_ok score score_union c ->
+    has_ref (cref c) (ms_map st) = true ->
+    ms_map (merge_step geb score_eqb beats score_union st c) <> ms_map st ->
+    ms_map (merge_step geb score_eqb beats score_union st c) = ms_map st ++ [(cpred c, cref c)] /\
+    geb (score_union (cref c) (preds_of (cref c) (ms_map st) ++ [cpred c])) (score_union (cref c) (preds_of (cref c) (ms_map st))) = true /\
+    score_eqb (score_union (cref c) (preds_of (cref c) (ms_map st) ++ [cpred c])) (score_union (cref c) (preds_of (cref c) (ms_map st))) = false /\
+    lookup_score (cref c) (ms_score st) = Some (score_union (cref c) (preds_of (cref c) (ms_map st))) /\
+    lookup_score (cref c) (ms_score (merge_step geb score_eqb beats score_union st c))
+      = Some (score_union (cref c) (preds_of (cref c) (ms_map st) ++ [cpred c])).
+  Proof.
+    intros HI Hseed Href Hchg. destruct HI as [H1 H2 H3 H4].
+    destruct (proj1 (H2 (cref c)) Href) as [old Hold]. destruct (H3 (cref c) old Hold) as (Eold & _).
+    unfold merge_step in *. rewrite Hold in *. rewrite Href in *. unfold merge_action in *.
+    destruct (has_pred (cpred c) (ms_map st)); [cbn in Hchg; congruence|].
+    destruct (score_eqb (score_union (cref c) (preds_of (cref c) (ms_map st) ++ [cpred c])) old) eqn:Ee; cbn [negb andb] in *; [cbn in Hchg; congruence|].
+    destruct (geb (score_union (cref c) (preds_of (cref c) (ms_map st) ++ [cpred c])) old) eqn:Eg; [|cbn in Hchg; congruence].
+    cbn [ms_map ms_score]. rewrite <- Eold. repeat split; try assumption.
+    rewrite (lookup_update score (cref c) (cref c)). rewrite Z.eqb_refl, Hold. reflexivity.
+  Qed.
+End MergeTrace.
